@@ -56,7 +56,7 @@ Section Hub.
   Hypothesis Hhold : c_hold cfg = true.
   Hypothesis Hincl : c_incl cfg = false.
 
-  Hypothesis U_id : forall b, In b U -> bid b <> 0 /\ bparent b <> 0 /\ bid b <> bparent b.
+  Hypothesis U_id : forall b, In b U -> bid b <> 0 /\ bid b <> bparent b.
   Hypothesis U_uniq : forall x y, In x U -> In y U -> bid x = bid y -> x = y.
   Hypothesis U_up : forall x y, In x U -> In y U -> bparent x = bid y -> bnum y < bnum x.
   Hypothesis D_decl : forall b, In b U -> decl_none U b.
@@ -343,14 +343,14 @@ Section Hub.
   Lemma pre_cursor_lib s d2 : last_lib_seen s = ref_empty -> cursor_lib (with_db s d2) = libref d2.
   Proof. intros H. unfold cursor_lib. cbn [with_db last_lib_seen db]. rewrite H. reflexivity. Qed.
 
-  Lemma own_out2 s b : PreInv U s -> In b U -> find (bid b) (store (db s)) = None ->
+  Lemma own_out2 s b : PreInv U cfg s -> In b U -> find (bid b) (store (db s)) = None ->
     DiscOut2 (let '(s', evs, ok) := process_initial_inclusive cfg b (with_db s (move_lib (new_db (db s) b) (bref b))) in
               (s', evs, if ok then ROk else RHandlerErr)).
   Proof.
-    intros HP Hb Hf. pose proof HP as [Hl He Hnd HU Hun Hls Hlls].
+    intros HP Hb Hf. pose proof HP as [Hl He Hnd HU Hun Hls Hlls Hrt].
     set (en := mkEntry b false).
     assert (Hen : In en (store (db s) ++ [en])) by (apply in_or_app; right; left; reflexivity).
-    pose proof (dbinv_found U U_id U_uniq U_up s b en HP Hb Hf Hen) as Hd2. cbn [eb en] in Hd2.
+    pose proof (dbinv_found U cfg U_id U_uniq U_up s b en HP Hb Hf Hen) as Hd2. cbn [eb en] in Hd2.
     change (R b) with (bref b) in Hd2.
     set (d2 := move_lib (new_db (db s) b) (bref b)) in *. set (s2 := with_db s d2).
     destruct (pii_ok2 b s2) as (s' & eI & Hrun & HsI & HbI & Hdb & Hls' & Hlls').
@@ -399,17 +399,17 @@ Section Hub.
   Proof. apply Forall_forall. intros sg H. apply in_map_iff in H as (e & <- & _). reflexivity. Qed.
 
   Lemma found_out2 s b y A a B' :
-    PreInv U s -> In b U -> find (bid b) (store (db s)) = None ->
+    PreInv U cfg s -> In b U -> find (bid b) (store (db s)) = None ->
     chain (store (db s) ++ [mkEntry b false]) (bid b) y (A ++ a :: B' ++ [mkEntry b false]) ->
     bnum (eb a) = blib b ->
     DiscOut2 (process_tail cfg (with_db s (move_lib (new_db (db s) b) (R (eb a)))) b [] [] None
                            (map seg_of (B' ++ [mkEntry b false])) (Some (seg_of a))).
   Proof.
-    intros HP Hb Hf Hc Hbl. pose proof HP as [Hl He Hnd HU Hun Hls Hlls].
+    intros HP Hb Hf Hc Hbl. pose proof HP as [Hl He Hnd HU Hun Hls Hlls Hrt].
     set (en := mkEntry b false) in *. set (l1 := store (db s) ++ [en]) in *.
     assert (Hain : In a (A ++ a :: B' ++ [en])) by (apply in_or_app; right; left; reflexivity).
     assert (Ha : In a l1) by (eapply chain_in; eassumption).
-    pose proof (dbinv_found U U_id U_uniq U_up s b a HP Hb Hf Ha) as Hd2.
+    pose proof (dbinv_found U cfg U_id U_uniq U_up s b a HP Hb Hf Ha) as Hd2.
     assert (HaU : In (eb a) U) by (apply (di_inU U _ _ Hd2); exact Ha).
     set (d2 := move_lib (new_db (db s) b) (R (eb a))) in *. set (s2 := with_db s d2).
     pose proof (di_wf U (R (eb a)) U_id U_up _ Hd2) as Hwf2.
@@ -536,18 +536,22 @@ Section Hub.
   (* ---------------------------------------------------------------- one ProcessBlock call before the discovery
      (Proofs/Fk/MovingLibDisc.pre_step with the richer description of the discovering step) *)
 
-  Lemma pre_step2 s b : PreInv U s -> In b U ->
-    PreQuiet U s b (fk_step cfg s b) \/ DiscOut2 (fk_step cfg s b).
+  Lemma pre_step2 s b : PreInv U cfg s -> In b U ->
+    PreQuiet U cfg s b (fk_step cfg s b) \/ DiscOut2 (fk_step cfg s b).
   Proof.
-    intros HP Hb. pose proof HP as [Hl He Hnd HU Hun Hls Hlls].
+    intros HP Hb. pose proof HP as [Hl He Hnd HU Hun Hls Hlls Hrt].
     destruct (find (bid b) (store (db s))) as [e|] eqn:Hf.
-    { left. rewrite (pre_step_old U cfg Hincl U_id U_uniq U_up s b e HP Hb Hf). exists s. split; [reflexivity|]. split; [exact HP|].
+    { left. rewrite (pre_step_old U cfg Hhold Hincl U_id U_uniq U_up D_decl s b e HP Hb Hf). exists s. split; [reflexivity|]. split; [exact HP|].
       split; [auto|]. split; [auto|]. apply find_is_some_in. eauto. }
     assert (Hk : ~ In (bid b) (keys (store (db s)))) by (apply find_none; exact Hf).
     rewrite (fk_step_pre U cfg Hhold Hincl U_id U_uniq U_up D_decl s b HP Hb Hf). cbv zeta.
     set (en := mkEntry b false). set (d1 := new_db (db s) b).
-    pose proof (pre_add U s b HP Hb Hf) as HP1. pose proof HP1 as [Hl1 He1 Hnd1 HU1 Hun1 _ _].
-    cbn [with_db db] in Hl1, He1, Hnd1, HU1, Hun1. fold d1 in Hl1, He1, Hnd1, HU1, Hun1.
+    assert (Hl1 : libref d1 = ref_empty) by exact Hl.
+    assert (He1 : extra d1 = None) by exact He.
+    assert (Hnd1 : NoDup (keys (store d1))).
+    { unfold d1. cbn [new_db store]. rewrite keys_snoc. apply nodup_snoc; assumption. }
+    assert (HU1 : in_U (store d1)).
+    { unfold d1. cbn [new_db store]. intros e Hin. apply in_app_or in Hin as [Hin|[<-|[]]]; [apply HU; exact Hin | exact Hb]. }
     pose proof (wf_of_U U U_id U_up _ Hnd1 HU1) as Hwf1.
     assert (Hfb : find (bid b) (store d1) = Some en).
     { unfold d1. cbn [new_db store]. apply (find_snoc_new (store (db s)) en). exact Hk. }
@@ -555,8 +559,9 @@ Section Hub.
     destruct p as [|top p' _] using rev_ind.
     { apply chain_nil_inv in Hc. rewrite <- Hc, Hfb in Hy. discriminate. }
     destruct (chain_top _ _ _ _ _ Hc) as [Hft _]. rewrite Hfb in Hft. injection Hft as <-.
-    assert (Hquiet : has_lib d1 = false -> PreQuiet U s b (with_db s d1, [], ROk)).
-    { intros _. exists (with_db s d1). split; [reflexivity|]. split; [exact HP1|]. split; [intros H; contradiction|].
+    assert (Hquiet : has_lib d1 = false -> (bparent b = 0 -> bnum b <> first /\ bnum b <> blib b) ->
+                     PreQuiet U cfg s b (with_db s d1, [], ROk)).
+    { intros _ Hq. exists (with_db s d1). split; [reflexivity|]. split; [exact (pre_add U cfg s b HP Hb Hf Hq)|]. split; [intros H; contradiction|].
       cbn [with_db db d1 new_db store]. rewrite keys_snoc. split.
       - intros k Hin. apply in_or_app. left. exact Hin.
       - apply in_or_app. right. left. reflexivity. }
@@ -576,7 +581,7 @@ Section Hub.
       destruct (N.eqb_spec (bid b) 0) as [E|E]; [exfalso; apply (proj1 (U_id b Hb)); exact E|]. cbn [andb negb].
       rewrite N.eqb_refl. apply own_out2; assumption. }
     unfold set_lib. change (rn (bref b)) with (bnum b).
-    destruct (bnum b =? first).
+    destruct (N.eqb_spec (bnum b) first) as [|Hnf].
     { right. cbv beta iota. apply (Hown _ eq_refl). }
     destruct (decl_on_store U U_uniq U_up (store d1) p' (bid b) y en HU1 Hc Hb (D_decl b Hb)) as [(A & a & B & Heq & Hna)|Hgt].
     - (* the declared height is the height of a stored ancestor-or-self *)
@@ -596,7 +601,7 @@ Section Hub.
         { replace (A ++ a :: B' ++ [t]) with ((A ++ a :: B') ++ [t]) in Hc by (rewrite <- app_assoc; reflexivity).
           destruct (chain_top _ _ _ _ _ Hc) as [Hft _]. congruence. }
         subst t.
-        pose proof (dbinv_found U U_id U_uniq U_up s b a HP Hb Hf Ha) as Hd2. rewrite <- Hna.
+        pose proof (dbinv_found U cfg U_id U_uniq U_up s b a HP Hb Hf Ha) as Hd2. rewrite <- Hna.
         change (mkR (key a) (bnum (eb a))) with (R (eb a)).
         set (d2 := move_lib d1 (R (eb a))) in *.
         rewrite (di_has_lib U (R (eb a)) d2 Hd2). cbn [d2 move_lib libref R rn].
@@ -623,6 +628,7 @@ Section Hub.
       { apply (Hgt en). apply in_or_app. right. left. reflexivity. }
       destruct (N.eqb_spec (bnum b) (blib b)) as [E|_]; [lia|].
       rewrite (bic_all_gt d1 (blib b) Hwf1 He1 (bid b) y (p' ++ [en]) Hc Hy); [|destruct p'; discriminate | exact Hgt | apply enough_fuel_of].
-      cbn [ri ref_empty]. rewrite N.eqb_refl. cbv beta iota. rewrite Hhl1. apply Hquiet. exact Hhl1.
+      cbn [ri ref_empty]. rewrite N.eqb_refl. cbv beta iota. rewrite Hhl1. apply Hquiet; [exact Hhl1|].
+      intros _. split; [exact Hnf | lia].
   Qed.
 End Hub.
